@@ -310,6 +310,9 @@ def library_state():
                                   for f in preproc.PREPROCESSORS]),
         "poc methods": fp([m.identifier for m in poc.POC_METHODS]),
         "registered models": fp(sorted(model.models_available)),
+        "model parameter defaults": fp(sorted(
+            (k, fp(md.get_parameter_defaults()))
+            for k, md in model.models_available.items())),
         "regressors": fp(sorted((k, v[0].__name__, fp_unordered(dict(v[1])))
                                 for k, v in regressors.reg_dict.items())),
     }
